@@ -97,9 +97,11 @@ ListCases ==
             c \in {d \in {x \in LL : Len(x) >= 1} \X (1..(MaxAttrs + 1)) \X FaultKinds :
                       d[2] <= Len(d[1]) + 1 /\ (d[3] = "dup" => d[2] >= 2)}}
 
+\* curated tag contents longer than N (evaluated as they are): a repeated key whose '=' ends the content, recovery at the very end
+AttrSeeds == { <<32,97,61,39,49,39,32,97,61>>, <<32,97,61,34,49,34,32,98,61,49,32,97,32,61>>, <<32,97,61,98,32,97,61,39>>, <<32,98,61,39,39,32,97,61,34,34,32,98,61,34,32>> }
 Init ==
     IF Mode = "strings"
-    THEN /\ s = <<>> /\ pos = 0 /\ html \in BOOLEAN /\ chk \in BOOLEAN /\ expect = <<>>
+    THEN /\ s \in ({<<>>} \cup AttrSeeds) /\ pos = 0 /\ html \in BOOLEAN /\ chk \in BOOLEAN /\ expect = <<>>
     ELSE /\ \E c \in {x \in ListCases : TRUE} : s = c.txt /\ expect = c.items
          /\ pos = 1 /\ html = FALSE /\ chk = TRUE
 \* "strings": the strings are grown byte by byte so that TLC's workers share the
